@@ -1263,7 +1263,7 @@ func runC12Unresolved(c *Ctx) {
 		c.anchorMissing("(*ExprSemanticsChecker).checkSpecialFunctionAvailability")
 		return
 	}
-	reach := func(f *ssa.Function) bool { return p.reachable(f)[avail] }
+	availStops := mustPassBlocks(fn, avail, 0)
 	// every return of checkFuncCall after the callee was found is preceded on its path by a call that reaches the check
 	// (directly, or through checkBuiltinFuncCall)
 	okAll, n := true, 0
@@ -1293,22 +1293,8 @@ func runC12Unresolved(c *Ctx) {
 			continue
 		}
 		n++
-		covered := false
-		for _, blk := range fn.Blocks {
-			for _, in := range blk.Instrs {
-				call, ok := in.(ssa.CallInstruction)
-				if !ok {
-					continue
-				}
-				f := staticCallee(call.Common())
-				if f == nil || !inPkgName(f) || !(f == avail || reach(f)) {
-					continue
-				}
-				if blk == b || blk.Dominates(b) {
-					covered = true
-				}
-			}
-		}
+		// every path to this return passes a call that checks the availability on every one of its own paths
+		covered := availStops[b] || !reachCut(fn.Blocks[0], availStops, nil)[b]
 		if !covered {
 			okAll = false
 			badPos = ret.Pos()
@@ -1319,7 +1305,7 @@ func runC12Unresolved(c *Ctx) {
 	case n == 0:
 		c.anchorMissing("returns of (*ExprSemanticsChecker).checkFuncCall")
 	case okAll:
-		c.ok(construct, fn.Pos(), fmt.Sprintf("%d return paths: each passes a call that reaches checkSpecialFunctionAvailability", n))
+		c.ok(construct, fn.Pos(), fmt.Sprintf("%d return paths: each passes checkSpecialFunctionAvailability, directly or in a callee all of whose paths pass it", n))
 	default:
 		c.bad(construct, badPos, "a return path of a call to a known function does not pass checkSpecialFunctionAvailability: `hashFiles()` or `always(1)` at a key where the function is not allowed only gets the argument errors")
 	}
